@@ -156,9 +156,9 @@ type layoutSpec struct {
 
 // buildHarness generates the probe in the given layout and builds the harness binary.
 func buildHarness(l layoutSpec, overlay string, pkg string) (dir, bin string) {
-	files := probe.ReadProbe("exec")
+	files := probeFiles()
 	if l.yml != "" {
-		files["gqlgen.yml"] = l.yml
+		files["gqlgen.yml"] = strings.Replace(l.yml, "  - schema.graphql\n", "  - schema.graphql\n  - c14_extra.graphql\n", 1)
 	}
 	for k, v := range harnessFiles() {
 		files[k] = v
@@ -292,14 +292,14 @@ func main() {
 	type plan struct{ n, fullGate, httpMax, shards int }
 	cpus := runtime.NumCPU()
 	budget := 100
-	plans := []plan{{4, 4, 4, max(1, cpus*3/4)}, {4, 3, 4, max(1, cpus/4)}}
+	plans := []plan{{4, 3, 4, max(1, cpus/2)}, {4, 3, 4, max(1, cpus/2)}}
 	if !quick {
 		budget = 17 * 60
 		plans = []plan{{5, 4, 5, max(1, cpus/2)}, {5, 4, 5, max(1, cpus/2)}}
 	}
 
 	results := make([]*result, len(layouts))
-	var omitOut string
+	var omitOut, omitViol string
 	var wg sync.WaitGroup
 	for i, l := range layouts {
 		wg.Add(1)
@@ -325,7 +325,7 @@ func main() {
 	wg.Add(1)
 	go func() {
 		defer wg.Done()
-		omitOut = omitVariant(overlay)
+		omitOut, omitViol = omitVariant(overlay)
 	}()
 	wg.Wait()
 
@@ -350,6 +350,9 @@ func main() {
 			c.Sample(s)
 		}
 	}
+	if omitViol != "" {
+		c.Report("omit-complexity-variant", omitViol, map[string]any{"kind": "omit", "config": "omit_complexity: true"})
+	}
 	// the walker must never hand safeAdd a negative operand (then only the non-negative
 	// quadrant of the grid is reachable from Calculate)
 	if total["safeadd_negative_operand_calls_from_walker"] != 0 {
@@ -371,7 +374,7 @@ func main() {
 	c.Cov["safeadd_grid"] = "12x12 = 144 cells over {minInt, minInt+1, -2, -1, 0, 1, 2, maxInt/2, maxInt/2+1, maxInt-2, maxInt-1, maxInt}; both operands >= 0 (64 cells): exact saturating sum from math/big; one negative (64): the other operand; both negative (16): documentation does not define the value, only a non-negative result is required (the code returns 1)"
 	c.Cov["bounds"] = map[string]any{
 		"max_selection_nodes":    plans[0].n,
-		"grammar":                "ordered selection sets over Query{str,z:str,arg[6 argument forms],t,z:t,node,u,__typename} Mutation{m1,m3} T{id,z:id,name,kid,peer,u,__typename} S{id,peer} Node{id,__typename} Named{name} Deep{peer} U{__typename}; inline fragments without / with type condition in {T,S,Node,Named,Deep,U} (where the types overlap); named fragment definition+spread on the same conditions; re-use of any fragment of the document; argument forms of Query.arg: none, x:3, x:$v, x:2 y:[p,q], x:-4, x:null; variable modes for $v: given 2, variable default 4, absent, null",
+		"grammar":                "ordered selection sets over Query{str,z:str,arg[6 argument forms],t,targ[3 argument forms],node,u,__typename} Mutation{m1,m3} T{id,z:id,name,kid,peer,u,__typename} S{id,peer} Node{id,__typename} Named{name} Deep{peer} U{__typename}; inline fragments without / with type condition in {T,S,Node,Named,Deep,U} (where the types overlap); named fragment definition+spread on the same conditions; re-use of any fragment of the document; argument forms of Query.arg (leaf, default x=7): none, x:3, x:$v, x:2 y:[p,q], x:-4, x:null; of Query.targ (composite, added by this check as `extend type Query { targ(x: Int = 6): T }`, default x=6): none, x:3, x:$v; variable modes for $v: given 2, variable default 4, absent, null",
 		"assignments":            "custom functions on <= 2 of the Object.field pairs the operation touches (for interface selections: every implementing object), each from {const 0, 1, 5, -3, maxInt, maxInt-1, child*2 saturating, child+x+10*len(y) (= child on fields without arguments)}; plus one assignment per operation putting maxInt on every field the operation does not touch",
 		"limits":                 "{0, 1, c-1, c, c+1, maxInt} (de-duplicated, c = reference complexity)",
 		"executor_gate":          fmt.Sprintf("every limit x every assignment for operations with <= %d nodes (layout single-file) / <= %d nodes (layout follow-schema); for larger operations every limit x the first assignment reaching each distinct reference value", plans[0].fullGate, plans[1].fullGate),
@@ -395,9 +398,24 @@ func main() {
 	c.Finish()
 }
 
-// omitVariant generates the probe with omit_complexity: true and runs a tiny program in it.
-func omitVariant(overlay string) string {
+// probeFiles: the exec probe plus one composite field with an argument (the documented use of
+// custom complexity is count*childComplexity; the probe itself has arguments on a leaf only).
+func probeFiles() map[string]string {
 	files := probe.ReadProbe("exec")
+	files["c14_extra.graphql"] = "extend type Query { targ(x: Int = 6): T }\n"
+	yml := strings.Replace(files["gqlgen.yml"], "  - schema.graphql\n", "  - schema.graphql\n  - c14_extra.graphql\n", 1)
+	if yml == files["gqlgen.yml"] {
+		broken("probes/exec/gqlgen.yml has no '  - schema.graphql' entry to extend")
+	}
+	files["gqlgen.yml"] = yml
+	return files
+}
+
+// omitVariant generates the probe with omit_complexity: true and runs a tiny program in it.
+// A failure of the variant itself (does not compile, Complexity() reports a value) is returned
+// as a violation text, not as a broken check.
+func omitVariant(overlay string) (report string, violation string) {
+	files := probeFiles()
 	files["gqlgen.yml"] = files["gqlgen.yml"] + "omit_complexity: true\n"
 	b, err := os.ReadFile(filepath.Join(common.Root, "props", "c14", "omitcheck", "main.go"))
 	if err != nil {
@@ -405,18 +423,29 @@ func omitVariant(overlay string) string {
 	}
 	files["omitcheck/main.go"] = string(b)
 	res, err := probe.Generate(probe.Spec{Name: "c14-omit", Files: files, Stub: "graph/stub.go"})
-	if err != nil || res.ExitCode != 0 {
-		broken("generation with omit_complexity failed: %v exit %d\n%s", err, res.ExitCode, res.Output)
+	if err != nil {
+		return "", "" // machinery problem; the main layouts will report it
+	}
+	if res.ExitCode != 0 {
+		return "", fmt.Sprintf("generation with omit_complexity: true failed (exit %d): %s", res.ExitCode, firstLines(res.Output, 5))
 	}
 	bin := filepath.Join(res.Dir, "omitcheck.bin")
 	if out, err := probe.GoBuild(res.Dir, "-tags", "verifharness", "-o", bin, "./omitcheck"); err != nil {
-		broken("omit_complexity variant does not compile: %v\n%s", err, out)
+		return "", "code generated with omit_complexity: true does not compile: " + firstLines(out, 5)
 	}
 	out, err := probe.Run(res.Dir, nil, bin)
 	if err != nil {
-		broken("omit_complexity variant: %v\n%s", err, out)
+		return "", "omit_complexity: true variant: " + firstLines(out, 5)
 	}
-	return strings.TrimSpace(out)
+	return strings.TrimSpace(out), ""
+}
+
+func firstLines(s string, n int) string {
+	l := strings.Split(strings.TrimSpace(s), "\n")
+	if len(l) > n {
+		l = l[:n]
+	}
+	return strings.Join(l, " | ")
 }
 
 func replay(path string, layouts []layoutSpec, overlay string) {
@@ -429,6 +458,11 @@ func replay(path string, layouts []layoutSpec, overlay string) {
 	}
 	if err := json.Unmarshal(b, &doc); err != nil || doc.Replay == nil {
 		broken("replay file has no replay object: %v", err)
+	}
+	if k, _ := doc.Replay["kind"].(string); k == "omit" {
+		out, viol := omitVariant(overlay)
+		fmt.Println("omit_complexity: true variant:", out, viol)
+		return
 	}
 	want, _ := doc.Replay["layout"].(string)
 	for _, l := range layouts {
@@ -444,8 +478,13 @@ func replay(path string, layouts []layoutSpec, overlay string) {
 	}
 }
 
-// broken removes the scratch directory before reporting a failure of the machinery (exit 2).
+// broken reports a failure of the machinery (exit 2): first failure wins, the scratch
+// directory is removed after the message is printed.
+var brokenMu sync.Mutex
+
 func broken(format string, a ...any) {
+	brokenMu.Lock() // never released: concurrent failures wait here until the process exits
+	fmt.Fprintf(os.Stderr, "BROKEN: "+format+"\n", a...)
 	probe.Cleanup()
-	common.Broken(format, a...)
+	os.Exit(2)
 }
